@@ -19,7 +19,7 @@ for m in sorted(glob.glob(os.path.join(ROOT, "seeded", "C*", "*", "meta.json")))
     others = "; ".join(fmt(c) for c in sorted(checks) if c != own)
     rows.append((rel, j.get("breadth", ""), j.get("file", "").replace("rust/", ""), j.get("summary", "").replace("|", "/")[:160], owner, others, j.get("note", "")))
 out = ["# Seeded changes and what the checks report on them", "",
-       "Each change was written by a sub-agent that saw only the property text and a scratch worktree;",
+       "Each change was written by a sub-agent that saw only the property text and a scratch worktree (changes 1-3: first round; 4-5: second round, asked to avoid the obvious slips);",
        "it compiles and passes the repository's 194 tests. Verdicts are from `tools/seeded_run.sh` (quick tier,",
        "seed 1) with the patch applied to /repo's working tree and removed afterwards. `missed` = the check",
        "exited 0; where a miss led to a stronger check, the row shows the verdict after strengthening and the note says so.", "",
